@@ -46,6 +46,7 @@ def facts : Facts :=
     returnDstIdx := (.add .base .i),
     returnBaseIsChildPos := true,
     defaultDstIdx := (.add .base .i),
+    defineXCell := .always,
     branchDstIdx := .base,
     branchStore := .both,
     nestedReadIdx := (.add .base .i),
